@@ -8,51 +8,105 @@ from .common import *  # noqa
 from . import models as M
 
 EXPLANATION = (
-    "The real POP.fit runs on a symbolic time-ordered data matrix (PCA pre-reduction on, under the SVD stub; feedback matrix under the inv stub; np.linalg.eig under "
-    "its contract A P = P diag(lambda); log / angle as uninterpreted functions). Obligations for all values: with the oracle feedback matrix A = C1 C0^-1 built "
-    "independently from the PCA-reduced data (model.data['input_data']), the patterns in PC space satisfy A p_i == lambda_i p_i for the reported eigenvalues in the "
-    "reported (re-sorted) order; damping_times * log|lambda| == -1 and periods * angle(lambda) == 2 pi with the same uninterpreted terms; modes are ordered by "
-    "descending standard deviation of their coefficient series on every path; the stored scores are what transform(X_fit) computes; for a fit without centring on data "
-    "generated by x_{t+1} = A x_t the matrix handed to eig is A."
+    "The real POP.fit runs on a symbolic time-ordered data matrix (PCA pre-reduction on or off, SVD / inv / pinv / eig under their contracts; log and angle as "
+    "uninterpreted functions). The harness builds the feedback matrix A = C1 C0^-1 independently from the PCA-reduced data the model stored (model.data['input_data']) "
+    "and calls the eigen-solver on it itself: the eig stub is a function of its input, so the reported eigenvalues / patterns can only be proved equal to that "
+    "decomposition if the matrix the code handed to np.linalg.eig is entry for entry the oracle's A. Obligations for all values: reported eigenvalues == eig(A) in the "
+    "order idx_modes_sorted; reported patterns, mapped to PC space, == the eigenvectors in the same order; A p_i == lambda_i p_i for the reported pairs (then the eig "
+    "contract itself); damping_times * log|lambda| == -1 and periods * angle(lambda) == 2 pi with the same uninterpreted terms; norms^2 == variance of the coefficient "
+    "series and norms descending on every path; transform(X_fit) == scores(); for a noise-free trajectory x_{t+1} = A_true x_t fitted without centring the feedback "
+    "matrix == A_true (so the recovered eigenvalues, periods and damping times are the true ones). Inputs are an oscillation plus an arbitrary symbolic perturbation "
+    "of every entry (all real values are covered; the WITNESS has a complex eigenvalue pair, damped or growing)."
 )
 FUNCTIONS = ["POP._fit_algorithm", "POP._np_solve_pop_system", "POP._np_compute_pop_coefficients", "POP._sort_by_variance", "POP._transform_algorithm", "PCA"]
-BOUNDS = {"quick": {"n": "5..6", "p": "2..3", "n_pca_modes": 2}, "thorough": {"n": "6", "p": 3, "n_pca_modes": "2..3"}}
-OUTSIDE = ["conjugate pairing of complex eigenvalues and A p = lambda p are the eig contract (LAPACK, trusted)", "real eigenvalues (singular 2x2 system in the coefficient formula, pinv branch)", "values of log / angle (uninterpreted)"]
+BOUNDS = {"quick": {"n": "4..6", "p": "2..3", "n_pca_modes": 2}, "thorough": {"n": "4..7", "p": "2..3", "n_pca_modes": "2"}}
+OUTSIDE = [
+    "conjugate pairing of complex eigenvalues and A p = lambda p for the solver's own output are the eig contract (LAPACK, trusted)",
+    "real eigenvalues (singular 2x2 system in the coefficient formula: pinv of a singular matrix is outside the inv contract)",
+    "values of log / angle (uninterpreted; only the formulas that use them are checked)",
+    "n_pca_modes >= 3 (the 3x3 complex eigen-contract exceeds the time limits)",
+]
 TRUSTED = ["SVD / inv / eig contracts"]
-ASSUMPTIONS = ["full rank PCs", "eigenvalues of the witness are a complex pair or the path is reported without witness"]
+ASSUMPTIONS = ["full rank PCs", "the 2x2 Gram matrix of (Re p, Im p) is invertible (complex eigenvector)"]
 
 
 def _H(A):
     return np.conjugate(A).T
 
 
-def h_pop(B, n=5, p=2, npca=2, check_transform=False):
-    X = da2d(B, "x", n, p)
-    model = M.single("POP", n_modes=npca, n_pca_modes=npca, use_pca=True, solver="full")
+def _trajectory(n, p, r, theta):
+    t = np.arange(n)[:, None]
+    ph = np.array([0.0, 1.3, 2.1, 0.6])[None, :p]
+    return (r**t) * np.cos(theta * t + ph)
+
+
+def h_pop(B, n=5, p=2, npca=2, use_pca=True, r=0.9, theta=0.8, check_transform=False, flags=None):
+    """oscillation (witness structure) + arbitrary symbolic perturbation of every entry"""
+    E = B.array((n, p), "x", lo=-0.05, hi=0.05)
+    Xv = _trajectory(n, p, r, theta) + E
+    X = xr.DataArray(Xv, dims=("time", "x"), coords={"time": list(range(n)), "x": XS[:p]}, name="v_x")
+    _pop_obligations(B, X, n, p, npca, use_pca, check_transform, flags or {})
+
+
+def h_linear(B, n=4, r=1.02, theta=0.7, use_pca=False):
+    """noise-free trajectory of x_{t+1} = A x_t, A and x_0 symbolic (witness: r * rotation(theta) + small perturbation), fitted without centring"""
+    p = 2
+    A0 = r * np.array([[np.cos(theta), -np.sin(theta)], [np.sin(theta), np.cos(theta)]])
+    A = A0 + B.array((p, p), "dA", lo=-0.03, hi=0.03)
+    x = B.array((p,), "x0", lo=0.5, hi=1.5)
+    rows = [x]
+    for _ in range(n - 1):
+        rows.append(B.let(A @ rows[-1], "x_{t+1} = A x_t"))
+    Xv = np.stack(rows)
+    X = xr.DataArray(Xv, dims=("time", "x"), coords={"time": list(range(n)), "x": XS[:p]}, name="v_x")
+    _pop_obligations(B, X, n, p, 2, use_pca, False, {"center": False}, A_true=A)
+
+
+def _pop_obligations(B, X, n, p, npca, use_pca, check_transform, flags, A_true=None):
+    kw = dict(n_modes=npca, use_pca=use_pca, solver="full")
+    if use_pca:
+        kw["n_pca_modes"] = npca
+    kw.update(flags)
+    model = M.single("POP", **kw)
     r = B.completes("POP.fit runs", lambda: model.fit(X, "time"))
     if r is None:
         return
     B.covers("POP._fit_algorithm")
-    Z = model.data["input_data"].transpose("sample", "feature").data  # PCA-reduced data
+    Z = model.data["input_data"].transpose("sample", "feature").data  # (PCA-reduced) data
+    k = Z.shape[1]
     Z0, Z1 = Z[:-1], Z[1:]
-    C0 = B.alias(Z0.T @ Z0)
+    C0 = Z0.T @ Z0
     C1 = Z1.T @ Z0
     A = C1 @ np.linalg.inv(C0)
+    lam_o, P_o = np.linalg.eig(A)  # sym: same symbols as the model's own call iff the model decomposed exactly this matrix
+    idx = [int(i) for i in np.asarray(model.data["idx_modes_sorted"].values)]
+    B.check("idx_modes_sorted is a permutation of the modes", sorted(idx) == list(range(k)), str(idx))
     comps = model.data["components"].transpose("feature", "mode").data  # physical feature space
-    Vp = model.pca.V.transpose("feature", "mode").data
-    Ppc = _H(Vp) @ comps
+    if use_pca:
+        Vp = model.pca.V.transpose("feature", "mode").data
+        Ppc = _H(Vp) @ comps
+    else:
+        Ppc = comps
     lam = model.data["eigenvalues"].data
-    B.eq("A p_i == lambda_i p_i (oracle feedback matrix, PC space, reported order)", A @ Ppc, Ppc * lam)
+    B.eq("eigenvalues() == eig(oracle feedback matrix C1 C0^-1) in the order idx_modes_sorted", lam, lam_o[idx])
+    B.eq("components() in PC space == eigenvectors of the oracle feedback matrix in the same order", Ppc, P_o[:, idx])
+    # B.alias: the same matrices, entries written with the let-bound names the engine introduced for them (no new symbols)
+    B.eq("A p_i == lambda_i p_i (oracle feedback matrix, reported pairs)", B.alias(A) @ P_o[:, idx], P_o[:, idx] * lam)
     tau = model.data["damping_times"].data
     T = model.data["periods"].data
-    B.eq("damping_times * log|lambda| == -1", tau * np.log(np.abs(lam)), -np.ones(npca))
-    B.eq("periods * angle(lambda) == 2 pi", T * np.angle(lam), 2 * np.pi * np.ones(npca))
+    B.eq("damping_times * log|lambda| == -1", tau * np.log(np.abs(lam)), -np.ones(k))
+    B.eq("periods * angle(lambda) == 2 pi", T * np.angle(lam), 2 * np.pi * np.ones(k))
     nrm = model.data["norms"].data
-    if npca > 1:
+    if k > 1:
         B.ge("modes ordered by descending std of the coefficient series", nrm[:-1], nrm[1:])
     Zs = model.data["scores"].transpose("sample", "mode").data
-    var = np.real(np.sum((Zs - Zs.mean(axis=0)) * np.conjugate(Zs - Zs.mean(axis=0)), axis=0)) / n
-    B.eq("norms^2 == variance of the coefficient series", nrm * nrm, var)
+    D = Zs - Zs.mean(axis=0)
+    var = np.real(np.sum(D * np.conjugate(D), axis=0)) / n
+    B.eq("norms^2 == variance of the coefficient series", nrm * nrm, B.alias(var))
+    if A_true is not None:
+        # C1 == A_true C0, and the oracle's A is C1 C0^-1 with C0 invertible (the inv contract's own premise): A == A_true, so the eigenvalues,
+        # periods and damping times obtained from A are those of the true system matrix
+        B.eq("noise-free trajectory without centring: lag-1 covariance C1 == A_true C0 (hence C1 C0^-1 == A_true)", C1, A_true @ C0)
     if check_transform:
         tr = B.completes("transform(X_fit) runs", lambda: model.transform(X))
         if tr is not None:
@@ -62,11 +116,23 @@ def h_pop(B, n=5, p=2, npca=2, check_transform=False):
 def configs(tier):
     out = []
 
-    def add(key, **params):
-        out.append({"key": key, "fn": "h_pop", "params": params, "options": {"full_rank": True, "budget_s": 120 if tier == "quick" else 1200}})
+    def add(key, fn="h_pop", **params):
+        out.append({"key": key, "fn": fn, "params": params, "options": {"full_rank": True, "budget_s": 120 if tier == "quick" else 900}})
 
-    add("POP|n5p2", n=5, p=2)
-    add("POP|n6p3", n=6, p=3)
+    add("POP|n5p2|damped", n=5, p=2)
+    add("POP|n5p2|growing", n=5, p=2, r=1.05)
+    add("POP|n6p3|pca2", n=6, p=3)
+    add("POP|n5p2|no pca", n=5, p=2, use_pca=False)
+    add("POP|n5p2|no pca|transform", n=5, p=2, use_pca=False, check_transform=True)
+    add("POP|n5p2|transform", n=5, p=2, check_transform=True)
+    out[-1]["options"]["budget_s"] = 60 if tier == "quick" else 900  # inverse-uniqueness argument over two pinv stubs: usually decided at the witness only
+    add("POP|linear system|growing|n5", fn="h_linear", n=5, r=1.02)
     if tier == "thorough":
-        add("POP|n5p2|transform", n=5, p=2, check_transform=True)
+        add("POP|n7p3|pca2", n=7, p=3)
+        add("POP|n5p2|standardize", n=5, p=2, flags={"standardize": True})
+        add("POP|n5p2|center=False", n=5, p=2, flags={"center": False})
+        add("POP|linear system|pca|n5", fn="h_linear", n=5, r=1.02, use_pca=True)
+        out[-1]["hard_timeout_s"] = 900
+        add("POP|linear system|damped|n5", fn="h_linear", n=5, r=0.9)
+        out[-1]["hard_timeout_s"] = 900
     return out
